@@ -159,7 +159,9 @@ def small_graphs(rng, count, nmax=5, allow_parallel=True):
            (5, [(0, 1), (1, 2), (2, 0), (3, 4)]), (4, [(1, 0), (1, 2), (2, 1), (3, 2)]),
            (5, [(0, 1), (1, 2), (2, 3), (3, 4), (4, 0)]), (5, [(0, 1), (0, 2), (0, 3), (0, 4), (1, 2), (3, 4)]),
            (4, [(i, j) for i in range(4) for j in range(i + 1, 4)]), (5, [(i, j) for i in range(5) for j in range(i + 1, 5)]),
-           (5, [(0, 1), (1, 2), (2, 3), (3, 4), (0, 2), (1, 3)]), (3, [(0, 1), (0, 1), (1, 2)])]
+           (5, [(0, 1), (1, 2), (2, 3), (3, 4), (0, 2), (1, 3)]), (3, [(0, 1), (0, 1), (1, 2)]),
+           (5, [(0, 1), (0, 1), (2, 3), (3, 4), (4, 2)]), (4, [(0, 1), (1, 0), (2, 3), (3, 2)]),
+           (4, [(0, 1), (1, 2), (2, 0)]), (5, [(0, 1), (1, 2), (2, 3), (3, 0), (0, 1)])]
     if not allow_parallel:
         out = [(n, es) for n, es in out if len({frozenset(e) for e in es}) == len(es)]
     while len(out) < count:
